@@ -344,6 +344,8 @@ KINDS: dict[str, tuple[Expr, bool]] = {
     "ilitalt": (("choice", ("istr", "ss"), S("x")), False),
     "ilitalt1": (("choice", ("istr", "k"), S("x"), ("istr", "s")), False),
     # prefix-sharing choices with case-insensitive members (ordered choice must keep its order when squashed)
+    "skipidiomci": (("seq", ("star", ("seq", ("not", ("istr", "ab")), ("any",))), ("istr", "ab")), False),
+    "skipidiomci2": (("seq", ("star", ("seq", ("not", ("choice", ("istr", "k"), S("b"))), ("any",))), ("any",)), False),
     "choiceci": (("choice", A, ("istr", "ab")), False),
     "choiceci2": (("choice", ("range", "a", "c"), ("istr", "ab"), B), False),
     "choiceci3": (("choice", ("istr", "a"), S("ab"), ("istr", "abc")), False),
@@ -427,6 +429,11 @@ KINDS: dict[str, tuple[Expr, bool]] = {
     "peek12": (("seq", ("pushlit", "a"), ("peekslice", 1, 2)), True),
     "peek02": (("seq", ("pushlit", "a"), ("peekslice", 0, 2)), True),
     "peekopenm1": (("seq", ("pushlit", "a"), ("peekslice", None, -1)), True),
+    # a literal 0 as the stop (the empty slice) and as the start
+    "peekto0": (("peekslice", None, 0), True),
+    "peek00": (("seq", ("pushlit", "a"), ("peekslice", 0, 0)), True),
+    "peek10": (("seq", ("pushlit", "a"), ("peekslice", 1, 0)), True),
+    "peekm10": (("seq", ("pushlit", "a"), ("peekslice", -1, 0)), True),
     "peekall": (("peekall",), True),
     "pop": (("pop",), True),
     "popall": (("popall",), True),
